@@ -5,6 +5,8 @@ import json, subprocess
 CHECKS = {
  "C01": ("model_checking", "6 C01", "exhaustive enumeration of (built-in type expression, small-scope value) pairs, each executed on the real library and compared with the independent format model",
          "No (type expression of depth <= 3 over all built-in constructors, value of its boundary-value domain) fails to round trip bit-exactly through serialize_to_byte_vec / serialize_to_bytes / deserialize, and the model decodes the same bytes to the same value. Coverage statement within the bounds, not a proof for unbounded nesting."),
+ "C02": ("translation_validation", "6 C02", "translation validation of the derive macro: every generated declaration x every small-scope value, derived impl vs the declaration interpreted by the independent model vs a field-by-field driver over the real Adt* API",
+         "For every declaration of the generated grammar (891 quick / 2793 thorough programs) and every value: derived bytes == model bytes == driver bytes; decode of the own encoding and of every alternative form agrees three ways; truncations and single-byte rewrites are judged alike by the derived impl and the driver."),
  "C03": ("model_checking", "6 C03", "exhaustive enumeration of legal evolution histories x (writer, reader) pairs x values x placements on the real record machinery, against a semantic outcome oracle and the model's byte-level reader",
          "Every legal history up to the depth bound, every version pair along it, every small-scope value, at top level and embedded (v0 outer, evolved outer, Vec): the reader's result equals expected(H,w,r,v) (value or the specific error naming the field) and sibling data is intact. Derived types to depth 2/3, dynamic driver over the real AdtSerializer/AdtDeserializer to depth 3/4."),
  "C04": ("model_checking", "6 C04", "byte-for-byte comparison of every encoding of the universe with an independent reference encoder anchored to the Scala golden file; decode of every alternative legal form",
@@ -13,6 +15,10 @@ CHECKS = {
          "For every value of the universes and 8 suffixes, decoding consumes exactly the encoding; for evolved records under every writer/reader pair with stored version >= 1 (and version 0 without removals)."),
  "C08": ("fault_enumeration", "6 C08", "enumeration of every cut point of every encoding of the universes (crash-point enumeration of a torn write)",
          "Every strict prefix of every encoding (all cut points up to 600 bytes, boundary-heavy subset beyond) is rejected with Err; evolved records also under every other definition of their history when the stored version is >= 1."),
+ "C13": ("model_checking", "6 C13", "exhaustive enumeration of enum declarations with one-variant extensions x values x constructor indices, compiled and through the dynamic driver",
+         "All enums with <= 3 variants over 7 variant kinds, sorted and unsorted, each with its extensions: old data keeps its meaning under the extension, new-variant data and every unknown / transient index is Err (never an unwind), leading bytes are 00 varu(index)."),
+ "C14": ("model_checking", "6 C14", "exhaustive enumeration of declarations with transient fields / constructors x values; histories ending in FieldMadeTransient",
+         "Transient fields never change the bytes and decode to their declared default (defaults differ from every enumerated value); transient constructors give the dedicated error through every sink; every history prefix ending in FieldMadeTransient stays encodable."),
  "C15": ("model_checking", "6 C15", "exhaustive enumeration of (type, value) x six sinks on the same instance; op-sequence exploration on the three sources",
          "Bytes through Vec, BytesMut, serialize_to_bytes, serialize_to_byte_vec and a recording user output are identical and SizeCalculator equals their length, for every value of the universes."),
 }
